@@ -239,7 +239,7 @@ def le_int(bs, signed=False):
 # --------------------------------------------------------------------------- native replay
 
 
-def replay_build(mirror, release=False):
+def replay_build(mirror, release=False, extra_cfg=""):
     """Build /verif/replay against the mirror (real decNumber, regex, chrono; no stubs)."""
     rdir = os.path.join(mirror.root, "replay")
     if not os.path.isdir(rdir):
@@ -254,7 +254,7 @@ def replay_build(mirror, release=False):
     cmd = ["cargo", "build", "--offline", "--target-dir", tdir]
     if release:
         cmd.append("--release")
-    env = env_offline({"RUSTFLAGS": "--cfg dmntk_verif -Awarnings"})
+    env = env_offline({"RUSTFLAGS": ("--cfg dmntk_verif -Awarnings " + extra_cfg).strip()})
     with Lock("native-target"):
         rc, out, secs = sh(cmd, cwd=rdir, env=env, timeout=1800)
         if rc != 0:
